@@ -149,7 +149,8 @@ theorem astep_deliverI {l : ALink} {f : AFrame} {rest : List AFrame} (hq : l.toI
     (astep l (.deliverNext .I)).toA = l.toA ++ (arecv l.i f).wr ∧ (astep l (.deliverNext .I)).toI = rest := by
   simp [astep, ALink.queueTo, hq, ALink.conn, hst, ALink.pop, ALink.absorb]
 
-theorem step_deliverA (l : ALink) (hs : SafeInv l) (h : SyncInv' l) : SyncInv' (astep l (.deliverNext .A)) := by
+theorem step_deliverA (l : ALink) (hs : SafeInv l) (h : SyncInv' l) (hb : Bounded l) :
+    SyncInv' (astep l (.deliverNext .A)) := by
   cases hq : l.toA with
   | nil =>
     have : astep l (.deliverNext .A) = l := by simp [astep, ALink.queueTo, hq]
@@ -168,13 +169,14 @@ theorem step_deliverA (l : ALink) (hs : SafeInv l) (h : SyncInv' l) : SyncInv' (
     · have hst : l.a.st ≠ .disc := by rcases h3.2.1 with h | h <;> simp [h]
       obtain ⟨e1, e2, e3, e4⟩ := astep_deliverA hq hst
       rw [hq] at h3
-      obtain ⟨r1, r2⟩ := recv3 h3 hs.2.e1 hs.2.keys
+      obtain ⟨r1, r2⟩ := recv3 h3 hs.2.e1 hs.2.keys hb.2
       apply mk3
       · rw [e1, e2, e3, e4]; exact r1
       · rw [e1]; exact hi
       · rw [e2, r2]; exact ha
 
-theorem step_deliverI (l : ALink) (hs : SafeInv l) (h : SyncInv' l) : SyncInv' (astep l (.deliverNext .I)) := by
+theorem step_deliverI (l : ALink) (hs : SafeInv l) (h : SyncInv' l) (hb : Bounded l) :
+    SyncInv' (astep l (.deliverNext .I)) := by
   cases hq : l.toI with
   | nil =>
     have : astep l (.deliverNext .I) = l := by simp [astep, ALink.queueTo, hq]
@@ -195,20 +197,21 @@ theorem step_deliverI (l : ALink) (hs : SafeInv l) (h : SyncInv' l) : SyncInv' (
       obtain ⟨e1, e2, e3, e4⟩ := astep_deliverI hq hst
       have h3' := h3.symm
       rw [hq] at h3'
-      obtain ⟨r1, r2⟩ := recv3 h3' hs.1.e1 hs.1.keys
+      obtain ⟨r1, r2⟩ := recv3 h3' hs.1.e1 hs.1.keys hb.1
       apply mk3
       · rw [e1, e2, e3, e4]; exact r1.symm
       · rw [e1, r2]; exact hi
       · rw [e2]; exact ha
 
 /-- `SyncInv'` is inductive relative to `SafeInv` (of the pre-state) -/
-theorem syncInv'_step (l : ALink) (ev : AEv) (hs : SafeInv l) (h : SyncInv' l) : SyncInv' (astep l ev) := by
+theorem syncInv'_step (l : ALink) (ev : AEv) (hs : SafeInv l) (h : SyncInv' l) (hb : Bounded l) :
+    SyncInv' (astep l ev) := by
   cases ev with
   | appSend s p ok => exact step_appSend l s p ok h
   | deliverNext to =>
     cases to with
-    | I => exact step_deliverI l hs h
-    | A => exact step_deliverA l hs h
+    | I => exact step_deliverI l hs h hb
+    | A => exact step_deliverA l hs h hb
   | breakConn => exact step_break l
   | reconnect => exact step_reconnect l hs h
 
